@@ -2,11 +2,14 @@ package main
 
 // Shared by C05 and C06: case encoding for algz.Trie, generators of pattern sets and texts.
 //   case = nops :: ops ++ query;  op = kind :: put_list(bytes)  (0 = Insert, 1 = BuildFailureLinks)
+//   C05 only: an optional trailing 1 after the query asks for the Dump observation (the built structure, trieDump below)
 
 import (
 	"fmt"
 	"math/rand"
+	"reflect"
 	"strings"
+	"unsafe"
 
 	"github.com/welllog/golib/algz"
 )
@@ -21,6 +24,7 @@ type trieCase struct {
 	text []byte
 	repl []byte // C06 only
 	mask int64  // C06 only
+	dump bool   // C05 only: also observe the built structure
 }
 
 func (tc *trieCase) encode(c06 bool) []int64 {
@@ -37,6 +41,8 @@ func (tc *trieCase) encode(c06 bool) []int64 {
 	if c06 {
 		in = append(in, PutList(Bytes(tc.repl))...)
 		in = append(in, tc.mask)
+	} else if tc.dump {
+		in = append(in, 1)
 	}
 	return in
 }
@@ -70,6 +76,8 @@ func decodeTrieCase(in []int64, c06 bool) (tc trieCase, ok bool) {
 			return tc, false
 		}
 		tc.mask = rest[0]
+	} else if len(rest) == 1 && rest[0] == 1 {
+		tc.dump = true
 	} else if len(rest) != 0 {
 		return tc, false
 	}
@@ -118,7 +126,97 @@ func (tc *trieCase) describe(c06 bool) string {
 	if c06 {
 		fmt.Fprintf(&sb, "; repl %q; mask %d", string(tc.repl), tc.mask)
 	}
+	if tc.dump {
+		sb.WriteString("; Dump (output after the token -1000020: node count, then per node in pre-order put_list(word) isEnd size nchildren fail, fail = -1 nil | put_list(word of the target))")
+	}
 	return sb.String()
+}
+
+// ---- Dump: the built structure of the real trie, read through reflect + unsafe (unexported fields).
+// A node is named by its WORD: the rune values on the path from the root.  Output:
+//   DUMPTAG :: nnodes :: for every node in pre-order, children in stored order:
+//       put_list(word) ++ [isEnd, size, nchildren] ++ fail
+//   fail = -1 (nil pointer) | put_list(word of the target) (the root is the empty word: 0) | -3 (points outside the trie)
+// Fails closed: a field that is missing or has another kind, a nil child pointer, a node reached twice
+// give DUMPTAG :: BADSTRUCT, which neither the model nor the judge ever produce.
+const (
+	BADSTRUCT = -1000008
+	DUMPTAG   = -1000020
+)
+
+type trieDumpNode struct {
+	word        []int64
+	isEnd       bool
+	size, nkids int64
+	fail        unsafe.Pointer
+}
+
+func trieField(v reflect.Value, name string, kind reflect.Kind) reflect.Value {
+	f := v.FieldByName(name)
+	if !f.IsValid() || f.Kind() != kind || !f.CanAddr() {
+		panic("trie layout: field " + name)
+	}
+	return reflect.NewAt(f.Type(), unsafe.Pointer(f.UnsafeAddr())).Elem()
+}
+
+func trieDump(t *algz.Trie) (out []int64) {
+	defer func() {
+		if r := recover(); r != nil {
+			out = []int64{DUMPTAG, BADSTRUCT}
+		}
+	}()
+	tv := reflect.ValueOf(t).Elem()
+	if tv.Kind() != reflect.Struct || tv.NumField() != 1 {
+		panic("trie layout: Trie")
+	}
+	root := trieField(tv, "root", reflect.Struct)
+	if root.NumField() != 4 {
+		panic("trie layout: trieNode")
+	}
+	words := map[unsafe.Pointer][]int64{}
+	var nodes []trieDumpNode
+	var walk func(n reflect.Value, word []int64)
+	walk = func(n reflect.Value, word []int64) {
+		id := unsafe.Pointer(n.UnsafeAddr())
+		if _, seen := words[id]; seen || len(word) > 1<<16 {
+			panic("trie layout: not a tree")
+		}
+		words[id] = word
+		kids := trieField(n, "children", reflect.Slice)
+		fail := trieField(n, "fail", reflect.Ptr)
+		if fail.Type().Elem() != n.Type() {
+			panic("trie layout: fail")
+		}
+		nodes = append(nodes, trieDumpNode{word: word, isEnd: trieField(n, "isEnd", reflect.Bool).Bool(),
+			size: trieField(n, "size", reflect.Int).Int(), nkids: int64(kids.Len()), fail: fail.UnsafePointer()})
+		for i := 0; i < kids.Len(); i++ {
+			ch := kids.Index(i)
+			if ch.Kind() != reflect.Struct || ch.NumField() != 2 {
+				panic("trie layout: childNode")
+			}
+			val := trieField(ch, "val", reflect.Int32).Int()
+			np := trieField(ch, "node", reflect.Ptr)
+			if np.IsNil() || np.Type().Elem() != n.Type() {
+				panic("trie layout: child pointer")
+			}
+			w := append(append(make([]int64, 0, len(word)+1), word...), val)
+			walk(np.Elem(), w)
+		}
+	}
+	walk(root, []int64{})
+	out = []int64{DUMPTAG, int64(len(nodes))}
+	for _, n := range nodes {
+		out = append(out, PutList(n.word)...)
+		out = append(out, B(n.isEnd), n.size, n.nkids)
+		if n.fail == nil {
+			out = append(out, -1)
+		} else if w, ok := words[n.fail]; ok {
+			out = append(out, PutList(w)...)
+		} else {
+			out = append(out, -3)
+		}
+	}
+	return out
 }
 
 // canonical op list: insert every pattern, then build
@@ -446,6 +544,18 @@ func manyPatternSet(r *rand.Rand) ([]string, []string) {
 			seen[w] = true
 			ps = append(ps, w)
 		}
+	}
+	return ps, letters
+}
+
+// 40-80 random words of length 3..7 over 3-4 letters (C05 Dump family "many-large")
+func largePatternSet(r *rand.Rand) ([]string, []string) {
+	k := 3 + r.Intn(2)
+	letters := []string{"a", "b", "c", "d"}[:k]
+	n := 40 + r.Intn(41)
+	var ps []string
+	for len(ps) < n {
+		ps = append(ps, randWord(r, letters, 3, 7))
 	}
 	return ps, letters
 }
